@@ -134,6 +134,7 @@ type runner struct {
 	skipped  int
 	stuck    string
 	hsBefore map[int]uint32
+	extra    map[int]ref.Key // public keys of peers the harness holds no private key for (one-byte neighbours of an identity)
 }
 
 func pkOf(k ref.Key) (o device.NoisePublicKey) { copy(o[:], k[:]); return }
@@ -186,6 +187,11 @@ func (r *runner) peerByPub(pub device.NoisePublicKey) int {
 	for _, i := range r.idents {
 		if pkOf(i.pub) == pub {
 			return i.id
+		}
+	}
+	for id, k := range r.extra {
+		if pkOf(k) == pub {
+			return id
 		}
 	}
 	return unknownID - 1
@@ -249,6 +255,8 @@ func (r *runner) observe(out cosim.Out, tunFrom int) Obs {
 			pk = pkOf(p.pub)
 		} else if i := r.identByID(id); i != nil {
 			pk = pkOf(i.pub)
+		} else if k, ok := r.extra[id]; ok {
+			pk = pkOf(k)
 		}
 		st := r.w.Dev.VerifPeer(pk)
 		b := func(x bool) uint64 {
@@ -399,6 +407,12 @@ func (r *runner) do(a string) bool {
 			r.idents = append(r.idents, id)
 		case "same":
 			id = *r.identByID(r.cur)
+		case "near": // a DIFFERENT key that agrees with the current private key in every byte but byte K
+			id = identity{id: r.nextID, priv: r.identByID(r.cur).priv}
+			id.priv[arg(2)&31] ^= 0x10 // bit 4 survives clamping in byte 0 and in byte 31
+			id.pub = ref.PubOf(id.priv)
+			r.nextID++
+			r.idents = append(r.idents, id)
 		case "peer":
 			p := r.peers[arg(2)]
 			if p == nil {
@@ -425,6 +439,42 @@ func (r *runner) do(a string) bool {
 		}
 		r.cur = id.id
 		r.record(Ev{K: "setkey", Pk: id.id}, r.w.Take(), unknownID)
+	case "addnearself": // addnearself K : a peer whose public key differs from the device's CURRENT public key in byte K only
+		k := r.identByID(r.cur).pub
+		k[arg(1)&31] ^= 0x10
+		id := r.nextID
+		r.nextID++
+		if r.extra == nil {
+			r.extra = map[int]ref.Key{}
+		}
+		r.extra[id] = k
+		if !r.set("public_key=" + hex.EncodeToString(k[:]) + "\n") {
+			return false
+		}
+		r.record(Ev{K: "add", Pk: id, Ep: false, Pfx: []int{}, Idx: 0}, r.w.Take(), unknownID)
+	case "nearself": // nearself K : add a peer whose public key is a one-byte neighbour of the NEXT identity, then change to it
+		next := identity{id: r.nextID, priv: ref.NewPrivate()}
+		next.pub = ref.PubOf(next.priv)
+		r.nextID++
+		k := next.pub
+		k[arg(1)&31] ^= 0x10
+		id := r.nextID
+		r.nextID++
+		if r.extra == nil {
+			r.extra = map[int]ref.Key{}
+		}
+		r.extra[id] = k
+		if !r.set("public_key=" + hex.EncodeToString(k[:]) + "\n") {
+			return false
+		}
+		r.record(Ev{K: "add", Pk: id, Ep: false, Pfx: []int{}, Idx: 0}, r.w.Take(), unknownID)
+		r.hsBefore = r.snapshotHs()
+		r.idents = append(r.idents, next)
+		if !r.set("private_key=" + hex.EncodeToString(next.priv[:]) + "\n") {
+			return false
+		}
+		r.cur = next.id
+		r.record(Ev{K: "setkey", Pk: next.id}, r.w.Take(), unknownID)
 	case "setkeyconf": // setkeyconf new|same|peer P|old K  then sections: self | prev | <peer number> ...   (ONE set operation)
 		var id identity
 		i := 2
@@ -729,6 +779,21 @@ var probes = []string{
 	"transport 1 0 data", "transport 1 1 data", "transport 1 -1 data", "transport 2 0 data", "transport 2 -1 data",
 }
 
+// one-byte neighbours of the keys that are compared on the property's path: the replacement private key differs from the
+// current one in byte k only; a configured peer's public key differs from the device's current / next public key in
+// byte k only (such a peer is NOT the device itself)
+func nearKeyPlans() (plans [][]string, names []string) {
+	for k := 0; k < 32; k++ {
+		p := []string{"add 2 ep 2", "up", "tun 2", "respond 2 -1",
+			fmt.Sprintf("addnearself %d", k), fmt.Sprintf("setkey near %d", k),
+			"tun 2", "initiate 2 old 0", "initiate 2 cur", "transport 2 -1 data", "tun 2",
+			fmt.Sprintf("nearself %d", 31-k), "tun 2", "initiate 2 cur", "transport 2 -1 data", "tun 2"}
+		plans = append(plans, p)
+		names = append(names, fmt.Sprintf("near-keys:byte-%d", k))
+	}
+	return
+}
+
 func gridPlans() (plans [][]string, names []string) {
 	for _, l := range lifeOrder {
 		for _, rv := range revOrder {
@@ -787,7 +852,13 @@ func randomPlan(r *rand.Rand, n int) []string {
 		case x < 83:
 			p = append(p, "replace")
 		case x < 90:
-			switch r.Intn(5) {
+			switch r.Intn(6) {
+			case 5:
+				if r.Intn(2) == 0 {
+					p = append(p, fmt.Sprintf("setkey near %d", r.Intn(32)))
+				} else {
+					p = append(p, fmt.Sprintf("nearself %d", r.Intn(32)))
+				}
 			case 0:
 				p = append(p, "setkey same")
 			case 1:
@@ -1461,6 +1532,10 @@ func main() {
 		}
 		if *grid {
 			plans, names := gridPlans()
+			for i, p := range plans {
+				cases = append(cases, runPlan(p, names[i]))
+			}
+			plans, names = nearKeyPlans()
 			for i, p := range plans {
 				cases = append(cases, runPlan(p, names[i]))
 			}
